@@ -112,6 +112,18 @@ func (_this *Session) GetIteratorForType(t reflect.Type) IteratorFunction {
 		return storedIterator.(IteratorFunction)
 	}
 
+	// If no iterator can be made for this type (panic), take the placeholder out again and release anyone waiting
+	// on it, so that the next request fails the same way instead of blocking forever.
+	defer func() {
+		if iterator == nil {
+			_this.iteratorFuncs.Delete(t)
+			iterator = func(context *Context, value reflect.Value) {
+				panic(fmt.Errorf("cannot iterate over type %v", t))
+			}
+			wg.Done()
+		}
+	}()
+
 	iterator = _this.getDefaultIteratorForType(t)
 	wg.Done()
 	_this.iteratorFuncs.Store(t, iterator)
